@@ -288,6 +288,7 @@ func vnCheckDoc(src []byte, exp []vnTok) {
 
 // VerifDoc: K constructs in sequence, each chosen by the solver.
 func VerifDoc() {
+	vnLight = false
 	k := vParam("K", 2)
 	bodyMax := vParam("B", 2)
 	var src []byte
@@ -323,6 +324,7 @@ func VerifDoc() {
 // contain quotes, '>' and the element's own end tag; it must come back as one token and the
 // element after it must not be swallowed.
 func VerifForeignDoc() {
+	vnLight = false // harness globals persist between native replays in one process
 	which := vRange("tag", 0, 1)
 	nm := []string{"svg", "math"}[which]
 	ename, _ := vnCased("e", nm)
